@@ -51,6 +51,8 @@ pub enum Class {
     SiblingClosuresSharedUpvalue,
     OptionLike,
     GlobalFnUsingGlobalBox,
+    AggPlainThenBoxDropped,
+    BlockYieldsOtherBox,
     // ---- known findings on the pinned tree (rate per dsp call in `rate()`)
     LocalCaptureBound,
     ReturnedBound,
@@ -72,9 +74,10 @@ pub enum Class {
     ClosureThroughCalls,
     VariantClosureLocal,
     BoxedReturnedFromIfDropped,
+    HelperYieldsOtherBox,
 }
 
-pub const STABLE: [Class; 30] = [
+pub const STABLE: [Class; 32] = [
     Class::LocalNoCapture,
     Class::InplaceCapturing,
     Class::GlobalClosureCalled,
@@ -105,8 +108,10 @@ pub const STABLE: [Class; 30] = [
     Class::SiblingClosuresSharedUpvalue,
     Class::OptionLike,
     Class::GlobalFnUsingGlobalBox,
+    Class::AggPlainThenBoxDropped,
+    Class::BlockYieldsOtherBox,
 ];
-pub const LEAKY: [Class; 20] = [
+pub const LEAKY: [Class; 21] = [
     Class::LocalCaptureBound,
     Class::ReturnedBound,
     Class::ReturnedInplace,
@@ -127,6 +132,7 @@ pub const LEAKY: [Class; 20] = [
     Class::ClosureThroughCalls,
     Class::VariantClosureLocal,
     Class::BoxedReturnedFromIfDropped,
+    Class::HelperYieldsOtherBox,
 ];
 
 impl Class {
@@ -162,6 +168,9 @@ impl Class {
             Class::OptionLike => "option-like-variant-match",
             Class::GlobalFnUsingGlobalBox => "global-lambda-reading-a-global-boxed-list",
             Class::BoxedReturnedFromIfDropped => "boxed-value-returned-from-a-callee-branch-and-dropped",
+            Class::AggPlainThenBoxDropped => "aggregate-with-a-plain-member-before-a-boxed-one-dropped",
+            Class::BlockYieldsOtherBox => "block-binding-a-box-and-yielding-another-box",
+            Class::HelperYieldsOtherBox => "helper-binding-a-box-and-returning-another-box",
             Class::FactoryCallbackScheduledByLetrecTask => "factory-made-callback-scheduled-by-a-letrec-task",
             Class::MatchBoxPayload => "match-projecting-a-boxed-payload-of-a-global-tree",
             Class::AssignGlobalClosure => "closure-assigned-to-a-global-from-dsp",
@@ -190,7 +199,7 @@ impl Class {
         match self {
             Class::LocalCaptureBound | Class::LocalIfSelectedFn => (1, 0),
             Class::LocalTupleClosure => (1, 1),
-            Class::BoxedReturnedFromIfDropped => (0, 1),
+            Class::BoxedReturnedFromIfDropped | Class::HelperYieldsOtherBox => (0, 1),
             Class::NestedTupleClosuresReturned => (2, 2),
             Class::AssignGlobalClosure | Class::ClosureThroughCalls | Class::VariantClosureLocal => (1, 1),
             Class::IfReturnedClosure => (1, 0),
@@ -374,6 +383,27 @@ impl Inst {
                 };
                 (ty, format!("  let bx{i} = {ctor};\n  let r{i} = now;\n"), format!("r{i}"))
             }
+            Class::AggPlainThenBoxDropped => (
+                format!("type rec Al{i} = An{i} | Ac{i}(float, Al{i})\n"),
+                if n % 2 == 0 {
+                    format!("  let ag{i} = ({k}, Ac{i}(now, An{i}));\n  let r{i} = now;\n")
+                } else {
+                    format!("  let ag{i} = {{gain = {k}, tail = Ac{i}(now, An{i})}};\n  let r{i} = now;\n")
+                },
+                format!("r{i}"),
+            ),
+            Class::BlockYieldsOtherBox => (
+                format!("type rec Kl{i} = Kn{i} | Kc{i}(float, Kl{i})\n"),
+                format!("  let kb{i} = {{\n    let scratch{i} = Kc{i}({k}, Kn{i})\n    Kc{i}(now, Kn{i})\n  }};\n  let r{i} = now;\n"),
+                format!("r{i}"),
+            ),
+            Class::HelperYieldsOtherBox => (
+                format!(
+                    "type rec Hl{i} = Hn{i} | Hc{i}(float, Hl{i})\nfn hmk{i}(q){{\n  let scratch = Hc{i}({k}, Hn{i})\n  Hc{i}(q, Hn{i})\n}}\n"
+                ),
+                format!("  let hb{i} = hmk{i}(now);\n  let r{i} = now;\n"),
+                format!("r{i}"),
+            ),
             Class::IfElseBoxedDropped => (
                 format!("type rec Il{i} = In{i} | Ic{i}(float, Il{i})\n"),
                 format!("  let ib{i} = if (now > {k}) {{ Ic{i}(1.0, In{i}) }} else {{ Ic{i}(2.0, In{i}) }};\n  let r{i} = now;\n"),
